@@ -187,7 +187,12 @@ func DecodeIdFromList(cborData []byte) (int, error) {
 	if listLen == 0 {
 		return 0, errors.New("cannot return first item from empty list")
 	}
-	if listLen < int(CborMaxUintSimple) {
+	// The shortcut is only valid when the first list item immediately follows
+	// a 1-byte array header (definite length <= 23 or indefinite length). With
+	// a non-minimal length encoding the second byte is part of the length.
+	hasShortHeader := cborData[0] <= (CborTypeArray+CborMaxUintSimple) ||
+		cborData[0] == (CborTypeArray|0x1f)
+	if hasShortHeader && listLen < int(CborMaxUintSimple) {
 		if cborData[1] <= CborMaxUintSimple {
 			return int(cborData[1]), nil
 		}
